@@ -25,6 +25,7 @@ type rwCfg struct {
 	Interval time.Duration
 	Ignore   bool
 	Float    bool
+	T0Off    time.Duration // construction time = VClockStart + T0Off (so that t0 is not a multiple of the interval)
 }
 
 const (
@@ -111,6 +112,7 @@ func rwWitness(cfg rwCfg, ops []rwOp, upto int, every bool) map[string]any {
 		}
 	}
 	return map[string]any{"size": cfg.Size, "interval_ns": int64(cfg.Interval), "ignore_current": cfg.Ignore, "float64": cfg.Float,
+		"t0": fmt.Sprintf("virtual clock %dns + %dns", int64(kit.VClockStart), int64(cfg.T0Off)),
 		"reduce_checked_after_every_op": every, "ops": s}
 }
 
@@ -118,7 +120,7 @@ func rwWitness(cfg rwCfg, ops []rwOp, upto int, every bool) map[string]any {
 // Returns whether the history was non-trivial (some Reduce had to leave out an
 // added value and to visit another one).
 func runRW(c *kit.Case, vc *kit.VClock, cfg rwCfg, ops []rwOp, every bool, st *rwStats) (nontrivial bool) {
-	vc.Set(kit.VClockStart)
+	vc.Set(kit.VClockStart + cfg.T0Off)
 	t0 := vc.Now()
 	var w rwWin
 	var adds []rwAdded
@@ -239,7 +241,7 @@ func rwSig(c *kit.Case, nontrivial bool, cfg rwCfg, ops []rwOp, every bool) {
 		r.h ^= uint64(o.K)*0x9E3779B97F4A7C15 + uint64(o.Step)
 		r.h *= 1099511628211
 	}
-	c.Sig(nontrivial, "rw", cfg.Size, int64(cfg.Interval), cfg.Ignore, cfg.Float, every, r.h)
+	c.Sig(nontrivial, "rw", cfg.Size, int64(cfg.Interval), cfg.Ignore, cfg.Float, int64(cfg.T0Off), every, r.h)
 }
 
 // rwStep draws one time step; since = time since the last bucket boundary.
@@ -294,7 +296,7 @@ func rollingWindowFamilies(t *testing.T) {
 		size int
 		L    int
 	}
-	exs := []ex{{1, 5}, {2, 5}, {3, 5}}
+	exs := []ex{{1, 6}, {2, 5}, {3, 5}, {4, 5}}
 	if kit.Thorough() {
 		exs = []ex{{1, 7}, {2, 7}, {3, 6}, {4, 6}, {5, 6}}
 	}
@@ -334,6 +336,7 @@ func rollingWindowFamilies(t *testing.T) {
 						x /= len(al)
 					}
 					cfg.Float = idx%2 == 1
+					cfg.T0Off = time.Duration(idx % 5)
 					nt := runRW(c, vc, cfg, seq, true, &st)
 					rwSig(c, nt, cfg, seq, true)
 				}
@@ -349,7 +352,7 @@ func rollingWindowFamilies(t *testing.T) {
 
 	// ---- random histories
 	const rb = 25
-	kit.Run(t, "C16", "rw-random", kit.N(120, 6000), func(c *kit.Case) {
+	kit.Run(t, "C16", "rw-random", kit.N(400, 8000), func(c *kit.Case) {
 		r := c.R
 		var st rwStats
 		for h := 0; h < rb && !c.Violated(); h++ {
@@ -358,6 +361,9 @@ func rollingWindowFamilies(t *testing.T) {
 				Interval: kit.Choose(r, []time.Duration{1, 3, 1000, 250 * time.Millisecond, time.Second, 10 * time.Second}),
 				Ignore:   r.Bool(),
 				Float:    r.Bool(),
+			}
+			if r.Chance(0.7) {
+				cfg.T0Off = time.Duration(r.Int63n(3 * int64(cfg.Interval)))
 			}
 			every := r.Chance(0.6)
 			L := r.Range(5, 90)
